@@ -1142,6 +1142,18 @@ func (l *Ledger) Truncate(utxovmLastID []byte) error {
 		}
 	}
 
+	// 裁剪目标成为新的tip, 它的next_hash指向的区块已经被裁剪掉了
+	if len(block.NextHash) > 0 {
+		newTip := proto.Clone(block).(*pb.InternalBlock)
+		newTip.NextHash = []byte{}
+		err = l.saveBlock(newTip, batchWrite)
+		if err != nil {
+			l.xlog.Warn("truncate failed when saving the new tip block", "err", err)
+			return err
+		}
+		l.blockCache.Del(string(newTip.Blockid))
+	}
+
 	newMeta.TrunkHeight = block.Height
 	metaBuf, err := proto.Marshal(newMeta)
 	if err != nil {
